@@ -1148,6 +1148,15 @@ def _grid_ops():
                [["out", cb.OFPP_FLOOD, 0]], [["out", cb.OFPP_ALL, 0]], [["out", cb.OFPP_IN_PORT, 0]], [["out", cb.OFPP_NONE, 0]], []):
     ops.append({"o": "packet_out", "data": [1, 0, 64], "in_port": 1, "acts": acts})
     ops.append({"o": "flow_mod", "m": 4, "cmd": 0, "acts": acts})
+  # outputs and enqueues to ports that do not exist: alone, with an unknown buffer, followed by an unknown action
+  for port in (0, P + 1, P + 2, cb.OFPP_MAX, 0xff01, 0xff42, 0xfff0, 0xfff7):
+    for act in (["out", port, 0], ["enq", port, 1]):
+      ops.append({"o": "packet_out", "data": [0, 0, 60], "in_port": 1, "acts": [act]})
+      ops.append({"o": "packet_out", "data": [0, 0, 60], "in_port": 1, "acts": [["out", 2, 0], act, ["bad", 12]]})
+      ops.append({"o": "packet_out", "buf": {"k": "unknown", "i": 1}, "acts": [act]})
+      ops.append({"o": "flow_mod", "m": 2, "cmd": 0, "acts": [act]})
+      ops.append({"o": "flow_mod", "m": 2, "cmd": 1, "acts": [act, ["vendor", 0x2320]]})
+      ops.append({"o": "flow_mod", "m": 2, "cmd": 0, "buf": {"k": "unknown", "i": 0}, "acts": [act]})
   # a flow-mod the switch refuses, with a buffer: still exactly one error
   ops.append({"o": "flow_mod", "m": 5, "cmd": 0, "flags": 4, "buf": {"k": "live", "i": 0}, "acts": [["bad", 12]]})
   ops.append({"o": "flow_mod", "m": 5, "cmd": 0, "flags": 4, "buf": {"k": "zero"}, "acts": [["out", 1, 0]]})
@@ -1260,7 +1269,11 @@ def _s_acts():
   ctl = st.sampled_from([0, 16, 64, 0xffff]).map(lambda n: ["out", cb.OFPP_CONTROLLER, n])
   odd = st.sampled_from([["out", 99, 0], ["out", cb.OFPP_NORMAL, 0], ["out", cb.OFPP_LOCAL, 0], ["out", cb.OFPP_TABLE, 0],
                          ["bad", 12], ["bad", 0x7777], ["vendor", 0x2320], ["enq", 1, 1]])
-  one = st.one_of(out_valid, out_valid, out_valid, out_valid, virt, virt, ctl, odd)
+  # ports that are neither physical ports of this switch nor named virtual ports
+  noport = st.sampled_from([["out", 0, 0], ["out", N_PORTS + 1, 0], ["out", N_PORTS + 2, 0], ["out", cb.OFPP_MAX, 0], ["out", 0xff01, 0],
+                            ["out", 0xff42, 0], ["out", 0xfff0, 0], ["out", 0xfff7, 0], ["out", cb.OFPP_NONE, 0],
+                            ["enq", 0xff01, 0], ["enq", 0, 1], ["enq", N_PORTS + 1, 2], ["enq", cb.OFPP_MAX, 0], ["enq", 0xfff7, 7]])
+  one = st.one_of(out_valid, out_valid, out_valid, out_valid, virt, virt, ctl, odd, noport)
   return st.lists(one, min_size=0, max_size=3)
 
 
